@@ -1387,12 +1387,20 @@ def target_worker_thread(host: str, port: int, shared_aconf: AuditConf) -> Tuple
         out.use_colors = False
 
     out.v("Running against: %s:%d..." % (my_aconf.host, my_aconf.port), write_now=True)
+
+    # Pool threads are re-used for several targets.  Start each target from a pristine copy of the algorithm databases, otherwise the notes added while auditing a previous target (Terrapin warnings, key and modulus size findings) would show up in this target's report.
+    SSH1_KexDB.thread_exit()
+    SSH2_KexDB.thread_exit()
     try:
         ret = audit(out, my_aconf, print_target=True)
         string_output = out.get_buffer()
     except Exception:
         ret = -1
         string_output = "An exception occurred while scanning %s:%d:\n%s" % (host, port, str(traceback.format_exc()))
+    finally:
+        # This deletes the thread's local copy of the algorithm databases.
+        SSH1_KexDB.thread_exit()
+        SSH2_KexDB.thread_exit()
 
     return ret, string_output
 
